@@ -79,9 +79,13 @@ func (p Ether) EtherType() uint16     { return binary.BigEndian.Uint16(p[12:14])
 func (p Ether) SrcIP() netip.Addr {
 	switch p.EtherType() {
 	case syscall.ETH_P_IP:
-		return IP4(p.Payload()).Src()
+		if ip := IP4(p.Payload()); ip.IsValid() == nil { // the frame may end before the IP header does
+			return ip.Src()
+		}
 	case syscall.ETH_P_IPV6:
-		return IP6(p.Payload()).Src()
+		if ip := IP6(p.Payload()); len(ip) >= IP6HeaderLen {
+			return ip.Src()
+		}
 	}
 	return netip.Addr{}
 }
@@ -90,9 +94,13 @@ func (p Ether) SrcIP() netip.Addr {
 func (p Ether) DstIP() netip.Addr {
 	switch p.EtherType() {
 	case syscall.ETH_P_IP:
-		return IP4(p.Payload()).Dst()
+		if ip := IP4(p.Payload()); ip.IsValid() == nil { // the frame may end before the IP header does
+			return ip.Dst()
+		}
 	case syscall.ETH_P_IPV6:
-		return IP6(p.Payload()).Dst()
+		if ip := IP6(p.Payload()); len(ip) >= IP6HeaderLen {
+			return ip.Dst()
+		}
 	}
 	return netip.Addr{}
 }
